@@ -94,7 +94,7 @@ var generators = map[string]func(*Gen){}
 
 var intPool = []int64{0, 1, 2, 3, -1, -2, 5, 7, 4, 6, math.MinInt64, math.MaxInt64, 1 << 40, -(1 << 33)}
 var floatPool = []string{"0", "1", "2.5", "-1.5", "NaN", "-0", "3", "+Inf", "-Inf", "1e300", "5e-324", "0.1", "-2", "bits:0x7ff8000000000001", "bits:0xfff8000000000000", "2"}
-var strPool = []string{"", "a", "ab", "b", "A", "aB", "abc", "ba", "\x00", "ÿ", "é", "a,b", "a\"b", "x\ny", " a", "B", "%", "a%"}
+var strPool = []string{"", "a", "ab", "b", "A", "aB", "a\ufffdb", "abc", "ba", "\x00", "ÿ", "é", "a,b", "a\"b", "x\ny", " a", "B", "%", "a%", "\ufffd", "\ufeffx"}
 var rawStrPool = []string{"\ufffd", "a\ufffdb", "\ufeff", "", "a", "\xff", "\x00\x01", "a\xc3", "\xe2\x80\xa8", "\"", "\\", ",", "\n", " lead", "trail ", "é", "\x7f", "\x1f", "long long long long long long long long"}
 
 func bsp(s string) *BS { b := toBS(s); return &b }
